@@ -168,7 +168,7 @@ func simulate(h history) func(n, g int) int {
 }
 
 func tlcOpts() core.TLCOpts {
-	return core.TLCOpts{Dir: specDir, Module: "Trace_XRefHistory", Cfg: "Trace_XRefHistory.cfg", XssMB: 512}
+	return core.TLCOpts{Dir: specDir, Module: "Trace_XRefHistory", Cfg: "Trace_XRefHistory.cfg", XssMB: 512, XmxMB: 2500}
 }
 
 func run(ctx *core.Ctx) error {
@@ -182,8 +182,8 @@ func run(ctx *core.Ctx) error {
 	if ctx.Thorough() {
 		cfg = "MC_XRefHistory_t.cfg"
 	}
-	if _, err := ctx.MustHold(core.TLCOpts{Dir: specDir, Module: "MC_XRefHistory", Cfg: cfg, Workers: ctx.Pick(12, 16),
-		Constants: "see " + cfg, Timeout: ctx.Dur(5, 25), XssMB: 512, XmxMB: 12000}); err != nil {
+	if _, err := ctx.MustHold(core.TLCOpts{Dir: specDir, Module: "MC_XRefHistory", Cfg: cfg, Workers: ctx.Pick(8, 16),
+		Constants: "see " + cfg, Timeout: ctx.Dur(5, 25), XssMB: 512, XmxMB: ctx.Pick(4000, 8000)}); err != nil {
 		return err
 	}
 
@@ -294,7 +294,7 @@ func run(ctx *core.Ctx) error {
 	ctx.Ev.Set("random_histories", nrand)
 	ctx.Ev.Set("files_with_subsection_1_first_entry_65535", ntrig)
 
-	bad, err := core.JudgeCases(ctx, tlcOpts(), recs, 1500, 12)
+	bad, err := core.JudgeCases(ctx, tlcOpts(), recs, 1500, 8)
 	if err != nil {
 		return err
 	}
@@ -424,7 +424,7 @@ func parallel(n, workers int, f func(i int)) {
 }
 
 func generate(ctx *core.Ctx) ([]genCase, error) {
-	shards := 8
+	shards := 2
 	pieces := ctx.Pick(3, 4)
 	var all []genCase
 	var mu sync.Mutex
@@ -471,6 +471,7 @@ type lenRecord struct {
 	T        string `json:"t"` // "len"
 	D        []int  `json:"d"`
 	Blen     int    `json:"blen"`
+	LK       string `json:"lk"`
 	Declared int    `json:"declared"`
 	Open     bool   `json:"open"`
 	Got      int    `json:"got"`
@@ -499,6 +500,7 @@ func runLen(c lenCase) (lenRecord, error) {
 		if p.Ref.Num == 1 && p.DataOffset >= 0 {
 			start = int(p.DataOffset)
 			rec.Declared = int(p.Declared)
+			rec.LK = p.LengthKind
 		}
 	}
 	if start < 0 || !bytes.Equal(data[start:start+len(c.Body)], c.Body) {
@@ -545,6 +547,13 @@ func runLen(c lenCase) (lenRecord, error) {
 func isWS(b byte) bool { return b == 0 || b == 9 || b == 10 || b == 12 || b == 13 || b == 32 }
 
 func lenKey(c lenCase, rec lenRecord) string {
+	if rec.LK == "null" {
+		// resolve.go asInteger turns the null object into 0
+		if rec.Open && rec.Got == 0 {
+			return "stream-length/indirect-length-is-null/taken-as-0/white-space-body-dropped"
+		}
+		return "stream-length/indirect-length-is-null/taken-as-0/body-starts-with-endstream"
+	}
 	if rec.Declared >= 0 && rec.Declared < len(c.Body) && rec.Got == rec.Declared {
 		all := true
 		for _, b := range c.Body[rec.Declared:] {
@@ -642,7 +651,7 @@ func runLengths(ctx *core.Ctx, bcases []genCase) error {
 	ctx.Ev.Set("length_bodies", nb)
 	ctx.Ev.Set("length_cases", len(cases))
 	ctx.Logf("lengths: %d bodies x ways of declaring /Length = %d streams read back", nb, len(cases))
-	bad, err := core.JudgeCases(ctx, tlcOpts(), recs, 1500, 12)
+	bad, err := core.JudgeCases(ctx, tlcOpts(), recs, 1500, 8)
 	if err != nil {
 		return err
 	}
